@@ -171,7 +171,31 @@ pub fn check_png(c: &PngCase) -> CheckResult {
     let mut o = Outcome::new();
     o.fp = fp_of(c);
     let n = (c.w * c.h) as usize;
-    let dt = DrawTarget::from_vec(c.w, c.h, c.words.clone());
+    let mut dt = DrawTarget::from_vec(c.w, c.h, c.words.clone());
+    // the image is the surface's pixel words (what get_data() shows) whatever else the target currently holds:
+    // an open layer group (empty or drawn into), a clip, a transform
+    let state = if n == 0 { 0 } else { (c.w * 5 + c.h * 3 + (c.words[0] >> 24) as i32) % 6 };
+    match state {
+        1 => dt.push_layer(0.5),
+        2 => {
+            dt.push_layer_with_blend(1.0, BlendMode::SrcOver);
+            dt.fill_rect(0.0, 0.0, c.w as f32, c.h as f32, &Source::Solid(SolidSource { r: 0x30, g: 0x60, b: 0x90, a: 0xc0 }), &DrawOptions::new());
+        }
+        3 => {
+            dt.push_clip_rect(IntRect::new(IntPoint::new(1, 0), IntPoint::new(c.w, c.h)));
+            dt.set_transform(&Transform::scale(2.0, 0.5));
+        }
+        4 => {
+            let mut pb = PathBuilder::new();
+            pb.rect(0.5, 0.5, c.w as f32 / 2.0, c.h as f32 / 2.0);
+            dt.push_clip(&pb.finish());
+            dt.push_layer(1.0);
+        }
+        _ => {}
+    }
+    if dt.get_data() != &c.words[..] {
+        return Err(format!("opening a layer group / pushing a clip (state {}) changed the pixel words of the surface", state));
+    }
     let path = PNG_PATH.with(|p| p.clone());
     let res = dt.write_png(&path);
     if n == 0 {
@@ -215,6 +239,8 @@ pub fn check_png(c: &PngCase) -> CheckResult {
     }
     o.nontrivial = distinct_swap_visible >= 2 && c.w != c.h;
     o.class_if(c.words.iter().any(|p| p >> 24 == 0 && p & 0xffffff != 0), "transparent-with-colour");
+    o.class_if(matches!(state, 1 | 2 | 4), "written-while-a-layer-is-open");
+    o.class_if(matches!(state, 3 | 4), "written-under-a-clip");
     o.class_if(c.words.iter().any(|p| (p >> 24) > 0 && (p >> 24) < 255), "translucent");
     Ok(o)
 }
@@ -255,7 +281,7 @@ fn png_big_strategy() -> BoxedStrategy<PngCase> {
 pub fn property(_ctx: &Ctx) -> Property {
     Property {
         id: "C19",
-        rule: "part views: sizes 0..9 x 0..9 (rarely 257..300 long or tall, also for part png) with arbitrary pixel words, arbitrary bytes written through get_data_u8_mut, arbitrary a,r,g,b for to_u32; oracle = word/byte layout model (A<<24|R<<16|G<<8|B; bytes B,G,R,A), cross-view visibility and from_vec/from_backing/into_vec/into_inner round trips (owned and borrowed backings; from_vec also with shorter vectors, with and without spare capacity, and longer ones: pixels that fit are kept, missing ones are zero). part png-large: 130..190 px square surfaces (more than 16384 pixels) that are zero except for a few rows, same oracle. part png: premultiplied words (alpha-0 pixels with arbitrary colour bytes) written by write_png and decoded with the png crate; oracle = un-premultiply model floor(c*255/a), alpha unchanged, row-major RGBA8. Non-trivial: >=2 distinct pixels, w != h and pairwise different channel bytes (so a channel swap or transposition is visible); distinct by hash of the case.",
+        rule: "part views: sizes 0..9 x 0..9 (rarely 257..300 long or tall, also for part png) with arbitrary pixel words, arbitrary bytes written through get_data_u8_mut, arbitrary a,r,g,b for to_u32; oracle = word/byte layout model (A<<24|R<<16|G<<8|B; bytes B,G,R,A), cross-view visibility and from_vec/from_backing/into_vec/into_inner round trips (owned and borrowed backings; from_vec also with shorter vectors, with and without spare capacity, and longer ones: pixels that fit are kept, missing ones are zero). part png-large: 130..190 px square surfaces (more than 16384 pixels) that are zero except for a few rows, same oracle. part png: premultiplied words (alpha-0 pixels with arbitrary colour bytes) written by write_png (in two thirds of the cases while a layer group is open, empty or drawn into, or a clip and a transform are in force: the image is the surface's pixel words regardless) and decoded with the png crate; oracle = un-premultiply model floor(c*255/a), alpha unchanged, row-major RGBA8. Non-trivial: >=2 distinct pixels, w != h and pairwise different channel bytes (so a channel swap or transposition is visible); distinct by hash of the case.",
         assumptions: vec!["little-endian target", "the png crate's decoder is trusted"],
         parts: vec![part_outside_c07("views", 60_000, 600_000, view_strategy, check_views), part("png", 20_000, 200_000, png_strategy, check_png), part("png-large", 150, 3_000, png_big_strategy, check_png)],
         min_class_fraction: vec![("views", "from_vec:short-nonzero", 0.5), ("png", "translucent", 0.5), ("png", "transparent-with-colour", 0.1)],
